@@ -90,16 +90,95 @@ def build(rng, facts, name):
             b.emit("q a %s" % f2h(q), chk)
     return b
 
+
+def build_direct(rng, name):
+    """The statistics object used directly (stat.SummaryStatistics): every method, including the factors the sketch never
+    passes (Reweight(0), negative and zero Rescale). Bit-for-bit against the Flocq instance; exact shadow for the tame programs."""
+    b = Builder(name); wild = rng.random() < 0.4; b.meta = {"direct": True, "wild": wild}
+    regs = ["t0", "t1", "t2"]; sh = {}
+    for r in regs: b.emit("tempty " + r, "ok"); sh[r] = {"vals": [], "ext": [], "ns": 0}
+    def val():
+        if wild and rng.random() < 0.3: return rng.choice([INF, -INF, NAN, -0.0, 0.0, 1.7976931348623157e308, -1.7976931348623157e308, 5e-324, -5e-324, 2.0 ** 1000, 3.0])
+        c = rng.random()
+        return float(rng.randint(-1000, 1000)) if c < 0.4 else rng.choice([1, -1]) * 10 ** rng.uniform(-3, 3) if c < 0.8 else rng.choice([0.5, -0.25, 1024.0, 0.0])
+    def cnt():
+        if wild and rng.random() < 0.3: return rng.choice([0.0, -1.0, INF, NAN, 0.1, 1e300, 5e-324])
+        return rng.choice([1.0, 1.0, 2.0, 0.5, 0.25, 3.0, 1024.0])
+    def fac(kind):
+        if wild and rng.random() < 0.3: return rng.choice([0.0, -0.0, INF, -INF, NAN, -1e300, 1e-320])
+        if kind == "rescale": return rng.choice([2.0, 0.5, -1.0, -2.0, -0.5, 4.0, 0.0, 1.0, -8.0, 0.125])
+        return rng.choice([2.0, 0.5, 0.0, 1.0, 4.0, 0.125, 3.0])
+    def check(r):
+        b.emit("tobsx " + r)
+        if wild: b.emit("tobs " + r); return
+        x = sh[r]; vals = list(x["vals"]); ext = list(x["ext"]); ns = x["ns"]
+        def f(a, env, vals=vals, ext=ext, ns=ns):
+            fld = dict(y.split("=") for y in a.split())
+            W = sum(w for _, w in vals)
+            if parse_F(fld["count"]) != W: return "count %s differs from the total weight %s" % (fld["count"], W)
+            if not ext:
+                if (fld["min"], fld["max"]) != ("+inf", "-inf"): return "empty statistics report min/max %s/%s" % (fld["min"], fld["max"])
+            elif parse_F(fld["min"]) != min(ext) or parse_F(fld["max"]) != max(ext): return "min/max %s/%s differ from the true extremes %s/%s" % (fld["min"], fld["max"], float(min(ext)), float(max(ext)))
+            true = sum(v * w for v, w in vals); mag = sum(abs(v) * w for v, w in vals); got = Fraction(h2f(fld["sum"][1:]))
+            if abs(got - true) > Fraction(5 + 3 * ns, 2 ** 53) * mag + Fraction(4 * len(vals) + 4, 2 ** 1074): return "sum %s is off the true sum %s by more than a few ulps of sum|v*w|" % (float(got), float(true))
+            return None
+        b.emit("tobs " + r, f)
+    for _ in range(rng.randint(5, 40)):
+        op = rng.choice(["add"] * 8 + ["merge", "merge", "reweight", "rescale", "rescale", "clear", "copy", "check", "check", "addcount", "addsum", "new"])
+        r = rng.choice(regs); x = sh[r]
+        if op == "add":
+            v, c = val(), cnt(); b.emit("tadd %s %s %s" % (r, f2h(v), f2h(c)), "ok")
+            if not wild: x["vals"].append((Fraction(v), Fraction(c))); x["ext"].append(Fraction(v))
+        elif op == "merge":
+            o = rng.choice([y for y in regs if y != r]); b.emit("tmerge %s %s" % (r, o), "ok")
+            x["vals"] += sh[o]["vals"]; x["ext"] += sh[o]["ext"]; x["ns"] += sh[o]["ns"] + 1
+        elif op == "reweight":
+            if x["ns"] >= 3 and not wild: continue
+            f = fac("reweight"); b.emit("treweight %s %s" % (r, f2h(f)), "ok"); x["ns"] += 1
+            if not wild:
+                x["vals"] = [(v, w * Fraction(f)) for v, w in x["vals"]]
+                if f == 0: x["ext"] = []; x["vals"] = []
+        elif op == "rescale":
+            if x["ns"] >= 3 and not wild: continue
+            f = fac("rescale"); b.emit("trescale %s %s" % (r, f2h(f)), "ok"); x["ns"] += 1
+            if not wild:
+                nonzero = sum(w for _, w in x["vals"]) != 0
+                x["vals"] = [(v * Fraction(f), w) for v, w in x["vals"]]
+                x["ext"] = [e * Fraction(f) for e in x["ext"]] if (f != 0 or nonzero) else x["ext"]
+        elif op == "clear": b.emit("tclear " + r, "ok"); sh[r] = {"vals": [], "ext": [], "ns": 0}
+        elif op == "copy":
+            o = rng.choice([y for y in regs if y != r]); b.emit("tcopy %s %s" % (o, r), "ok"); sh[o] = {"vals": list(x["vals"]), "ext": list(x["ext"]), "ns": x["ns"]}
+            v = val(); b.emit("tadd %s %s %s" % (r, f2h(v), f2h(1.0)), "ok")          # independence of the copy
+            if not wild: x["vals"].append((Fraction(v), Fraction(1))); x["ext"].append(Fraction(v))
+            check(o)
+        elif op == "addcount" and wild: b.emit("taddcount %s %s" % (r, f2h(cnt())), "ok")
+        elif op == "addsum" and wild: b.emit("taddsum %s %s" % (r, f2h(val())), "ok")
+        elif op == "new":
+            c, sm, mn, mx = cnt(), val(), val(), val()
+            if rng.random() < 0.5: mn, mx = min(mn, mx), max(mn, mx)
+            if rng.random() < 0.2: c, mn, mx = 0.0, INF, -INF
+            good = (c >= 0) and not (c > 0 and mn > mx) and not (c == 0 and (mn != INF or mx != -INF))
+            b.emit("tnew %s %s %s %s %s" % (r, f2h(c), f2h(sm), f2h(mn), f2h(mx)), "ok" if good else "err bad-stats")
+            if good:
+                b.emit("tobsx " + r)
+                sh[r] = {"vals": [], "ext": [], "ns": 0}
+                if not wild: wild = True; b.meta["wild"] = True          # constructed statistics have no history: correspondence only from here on
+        elif op == "check": check(r)
+    for r in regs: check(r)
+    return b
+
 def run(tier, seed):
     rng = random.Random(seed)
     ok, log = core.build_vrun()
     specs = [mapspec(rng)[0] for _ in range(10 if tier == "quick" else 40)]
     facts = sketchcheck.learn_specs("C10", specs) if ok else {}
-    builders = [build(rng, facts, "x%d" % i) for i in range(300 if tier == "quick" else 8000)] if facts else []
+    builders = ([build(rng, facts, "x%d" % i) for i in range(300 if tier == "quick" else 8000)] + [build_direct(rng, "t%d" % i) for i in range(200 if tier == "quick" else 5000)]) if facts else []
     return sketchcheck.run_sketch_property(
         "C10", tier, seed, builders,
         "histories over three exact-summary sketches (random store kinds) and a plain twin: unit and dyadic-weight adds of arbitrary trackable values, weight-0 adds, rejected values (NaN, +-Inf, "
         "beyond the range, negative weight), merges, copies, clears, reweights, encode->decode round trips into other store kinds, decode into a non-empty sketch; checks: exact count = absorbed "
         "weight, min/max = true extremes of what was absorbed with positive weight, emptiness, sum within (5+2#scale+2#merge) 2^-53 sum|vw| (+ subnormal floor) in exact rationals, statistics "
         "identical after a codec round trip, quantiles inside [min,max] and equal to the clamped plain answer; the model side replays the Flocq binary64 transcription of the compensated summation "
-        "and must match GetSum bit for bit. distinct_nontrivial = distinct histories")
+        "and must match GetSum bit for bit. Second stream: stat.SummaryStatistics used directly (Add, AddToCount, AddToSum, MergeWith, Reweight incl. 0, Rescale incl. negative and zero factors, "
+        "Clear, Copy, NewSummaryStatisticsFromData accept/refuse), 60% tame programs with an exact shadow (count, extremes, sum bound), 40% with infinities, NaN, -0, negative and huge counts, "
+        "every observation compared bit for bit with the Flocq instance. distinct_nontrivial = distinct histories")
